@@ -199,6 +199,25 @@ def install(I):
             hook = ex.ghost.get('__list_of_view__')
             if hook is not None:
                 return hook(ex, v)
+            hd = ex.heap.get(v.base.addr) if isinstance(v.base, VRef) else None
+            if isinstance(hd, HSymDict) and v.kind in ('values', 'keys'):
+                # list(d.values()) / list(d.keys()) of a symbolic dict: a symbolic list each of whose elements is a value (key) of d as d was then; order and
+                # multiplicities are not modelled (the fact is attached to the list and assumed when an element is taken out of it)
+                R = ex.fresh('listed', SeqVal)
+                res = ex.alloc(HSymList(R))
+                hobj = ex.heap[res.addr]
+                hint = hd.vkind if isinstance(hd.vkind, tuple) else None
+                hobj.elem_hint = hint if v.kind == 'values' else None
+                dom0, map0, kind0 = hd.dom, hd.map, v.kind
+
+                def elem_fact(ex_, term, kind=kind0):
+                    if kind == 'values':
+                        kq = ex_.fresh('key_of_listed', Val)
+                        ex_.assume(z3.And(z3.Select(dom0, kq), z3.Select(map0, kq) == term))
+                    else:
+                        ex_.assume(z3.Select(dom0, term))
+                hobj.elem_fact = elem_fact
+                return res
             raise Undecided('list() of a symbolic dict view')
         items = I.iter_concrete(v)
         if items is not None:
